@@ -1355,7 +1355,7 @@ finding_of = {}
 timed_out_blocks = set()
 patch_cases = []  # (cid, protocol line, reference of the real code by atom names)
 lines = []
-t_budget = 780 if chk.thorough else 55
+t_budget = 780 if chk.thorough else 68
 for cid, spec in all_specs:
     if chk.elapsed() > t_budget and cid.startswith('gen'):
         chk.count('skipped_for_time')
